@@ -49,6 +49,11 @@ AllActsOf(st) ==
        \cup [op : {"srid"}, to : Targets(st), srid : {4326}]
        \cup (IF Rich THEN [op : {"reserve"}, to : Targets(st)] ELSE {})
        \cup [op : {"setcoords"}, to : Targets(st), v : SetVals(k, s)]
+       \cup (IF k \in {"LS", "LR"} THEN [op : {"setself"}, to : {t \in Targets(st) : Len(st.o[t].v) >= 2}, how : {"rev", "rot"}] ELSE {})
+       \cup (IF k \in {"PG", "MLS", "MPG", "MPT"}
+            THEN {[op |-> "setpart", to |-> t, pos |-> 0, v |-> pv] :
+                    t \in {t \in Targets(st) : Len(st.o[t].v) >= 1 /\ s > 0}, pv \in (IF k = "MPT" THEN PartsOf(k, s) \ {NIL} ELSE PartsOf(k, s))}
+            ELSE {})
        \* room: the slices handed to the constructor have capacity left behind their length (a builder that reuses buffers;
        \* with the empty value: New<Kind>Flat(l, buf[:0], ends[:0])) - the object owns that room from then on
        \cup {[op |-> "newflat", to |-> t, v |-> v, rep |-> Deflate(k, v), room |-> FALSE] : t \in Targets(st), v \in SetVals(k, s)}
